@@ -13,7 +13,7 @@ def truth_of(op, order):
     return {"lt": order < 0, "le": order <= 0, "gt": order > 0, "ge": order >= 0, "eq": order == 0, "ne": order != 0}[op]
 
 
-def classify(term):
+def classify(term, NEW="new", OLD="existing"):
     """(field, op, swapped) when the term compares new.<field> with existing.<field>"""
     t = term
     if t[0] == "bin" and t[1] in BIN:
@@ -27,14 +27,14 @@ def classify(term):
     if fa != fb:
         return None
     ra, rb = pa.split(".")[0], pb.split(".")[0]
-    if ra == "new" and rb == "existing":
+    if ra == NEW and rb == OLD:
         return fa, op, False
-    if ra == "existing" and rb == "new":
+    if ra == OLD and rb == NEW:
         return fa, op, True
     return None
 
 
-def walk(b, start, case, stop, outcomes_re, limit=2000):
+def walk(b, start, case, stop, outcomes_re, N, limit=2000):
     """follow the CFG from `start` deciding every comparison of new.* with existing.* by `case`;
     returns the set of outcome callee names met before `stop` blocks"""
     out = set()
@@ -51,7 +51,7 @@ def walk(b, start, case, stop, outcomes_re, limit=2000):
         t = b.blocks[x]["t"]
         if t["k"] == "call":
             n = callee_name(t)
-            if re.search(outcomes_re, n) and mir.mentions(b.call_args(x)[0], "node_ids"):
+            if re.search(outcomes_re, n) and mir.mentions(b.call_args(x)[0], N["ids"]):
                 out.add(n.split("::")[-1])
                 continue   # the decision is taken
         if t["k"] == "switch" and len(succ[x]) > 1:
@@ -59,7 +59,7 @@ def walk(b, start, case, stop, outcomes_re, limit=2000):
             chosen = None
             for tg, vals in rights.switch_edges(b, x):
                 atom, tr = mir.cond_atoms(term, vals)
-                cl = classify(atom)
+                cl = classify(atom, N["new"], N["old"])
                 if cl is None:
                     break
                 f, op, swapped = cl
@@ -97,13 +97,23 @@ def run(P, C, tier):
         C.anchor_missing("R1", "filter_existing", e)
         return
     C.saw(b)
+    # the variables are identified by what they are, not by how they are spelled
+    try:
+        N = {"ids": b.the_local("the incoming identifiers", ty=r"HashSet<.*NodeIdentifier", param=True),
+             "old": b.the_local("the stored version", aggr=r"NodeIdentifier$"),
+             "new": b.the_local("the incoming version of the same row", call=r"HashSet::get$"),
+             "row": b.the_local("the stored row", aggr=r"node::Node$"),
+             "result": b.the_local("the rows to fetch", ty=r"^(std::vec::|alloc::vec::)?Vec<.*NodeToInsert", param=False)}
+    except mir.MissingAnchor as e:
+        C.anchor_missing("R1", "variables of filter_existing", e)
+        return
     # start: the Some edge of node_ids.get(&existing)
     start = None
     for sb in sorted(b.live_blocks()):
         t = b.blocks[sb]["t"]
         if t["k"] == "switch":
             term = b.switch_term(sb, expand_vars=True)
-            if term[0] == "discr" and mir.has_call(term[1], r"HashSet::get$") and mir.mentions(mir.has_call(term[1], r"HashSet::get$")[2][0], "node_ids"):
+            if term[0] == "discr" and mir.has_call(term[1], r"HashSet::get$") and mir.mentions(mir.has_call(term[1], r"HashSet::get$")[2][0], N["ids"]):
                 table = dict(term[3])
                 for v, tg in t["targets"]:
                     if table.get(v) == "Some":
@@ -117,7 +127,7 @@ def run(P, C, tier):
     for md in (-1, 0, 1):
         for sg in (-1, 0, 1):
             case = {"mdate": md, "signature": sg}
-            got, unknown = walk(b, start, case, hdrs, r"HashSet::(remove|take)$")
+            got, unknown = walk(b, start, case, hdrs, r"HashSet::(remove|take)$", N)
             all_unknown |= set(unknown)
             want = "take" if (md > 0 or (md == 0 and sg > 0)) else "remove"
             names = {-1: "<", 0: "=", 1: ">"}
@@ -130,7 +140,7 @@ def run(P, C, tier):
     C.ob("R2", "only-order-comparisons", not all_unknown, b.loc(start), "branches between the lookup and the outcome that are not comparisons of new.* with existing.*: %s" % sorted(b.loc(x) for x in all_unknown))
     # R3: absent rows: the drain loop pushes every remaining id
     drain = b.calls_to(r"HashSet::drain$")
-    pushes = [bi for bi, t in b.calls_to(r"Vec::push$") if field_path(b.call_args(bi)[0]) == "result"]
+    pushes = [bi for bi, t in b.calls_to(r"Vec::push$") if field_path(b.call_args(bi)[0]) == N["result"]]
     ok = len(drain) == 1 and any(bi in b.reach_after(drain[0][0]) for bi in pushes)
     C.ob("R3", "absent-rows-fetched", ok, b.loc(drain[0][0]) if drain else b.loc(), "identifiers not matched by a stored row are all returned for fetching")
     # existing is built from the stored row's (id, mdate, _signature)
@@ -141,7 +151,7 @@ def run(P, C, tier):
             if rv["r"] == "aggr" and rv.get("adt", "").endswith("NodeIdentifier"):
                 t = b.def_term(bi, si, rv, 0)
                 fields = dict(zip(t[5], [field_path(x) for x in t[4]]))
-                ok = fields.get("id", "").endswith("node.id") and fields.get("mdate", "").endswith("node.mdate") and fields.get("signature", "").endswith("node._signature")
+                ok = fields.get("id", "") == N["row"] + ".id" and fields.get("mdate", "") == N["row"] + ".mdate" and fields.get("signature", "") == N["row"] + "._signature"
     C.ob("R3", "compared-with-stored-version", ok, b.loc(), "`existing` is (id, mdate, _signature) of the stored row")
     # NodeIdentifier equality/hash is by id only (so get(&existing) finds the incoming version of the same row)
     ni = [im for im in P.impls if im["self"].endswith("NodeIdentifier") and im["trait"] in ("std::cmp::PartialEq", "std::hash::Hash")]
@@ -163,7 +173,7 @@ def run(P, C, tier):
     try:
         sd = P.body("LocalPeerService::synchronise_day::{closure#0}")
         C.saw(sd)
-        pushes = [bi for bi, t in sd.calls_to(r"Vec::push$") if field_path(sd.call_args(bi)[0]) == "nodes_to_insert"]
+        pushes = [bi for bi, t in sd.calls_to(r"Vec::push$") if re.search(r"Vec<.*NodeToInsert", sd.root_type(sd.call_args(bi)[0]))]
         checked = 0
         for pb in pushes:
             for s_, vals, term in sd.guards(pb, expand_vars=True):
@@ -200,11 +210,15 @@ def run(P, C, tier):
             if "d:ForLoop" in t["at"][1] and callee_name(t).endswith("::next"):
                 it = mir.strip(sh.call_args(bi)[0])
                 srcs = " ".join(term_str(x) for x in sh.var_defs(it)) if it[0] == "var" else term_str(it)
-                if "remote_log" in srcs and all(sh.dominates(bi, d) for d in days):
+                srcs_, _ = mir.flow_sources(sh, it, r"^\b$")
+                if any(x.endswith("query_multiple") for x in srcs_) and not any(x.endswith("get_room_log") for x in srcs_) and all(sh.dominates(bi, d) for d in days):
                     hdr = bi
         ok = hdr is not None and len(days) >= 3
         det = "loop over the remote log not found"
         if ok:
+            item = sh.find_locals(pred=lambda d: any(x[0] == "call" and x[3] == hdr for x in mir.subterms(d)))
+            item = item[0] if len(item) == 1 else "?"
+            room = sh.find_locals(ty=r"^\[u8; 16\]$|Uid$", arg=True)
             re_ = mir.result_edges(sh, hdr)
             entry = re_["ok"] if re_ else None
             skip = set()
@@ -216,7 +230,8 @@ def run(P, C, tier):
                 atom, _ = mir.cond_atoms(term, [0])
                 if atom[0] == "call" and atom[1].endswith("::eq") and len(atom[2]) == 2:
                     ps = sorted(field_path(x) for x in atom[2])
-                    if ps == ["local_log.daily_hash", "remote.daily_hash"]:
+                    roots = sorted(p.split(".")[0] == item for p in ps)
+                    if all(p.endswith(".daily_hash") for p in ps) and roots == [False, True]:
                         for tg, vals in rights.switch_edges(sh, sb):
                             if mir.cond_atoms(term, vals)[1] is True:
                                 skip.add((sb, tg))
@@ -226,14 +241,14 @@ def run(P, C, tier):
             for d in days:
                 a = sh.call_args(d)
                 ps = [field_path(x) for x in a]
-                okd = "room_id" in ps and any(p.endswith("remote.entity") for p in ps) and any(p.endswith("remote.date") for p in ps)
+                okd = ps[0] in room and (item + ".entity") in ps[1] and ps[2] == item + ".date"
                 C.ob("R5", "exchange-args#%d" % days.index(d), okd, sh.loc(d), "synchronise_day(room_id, remote.entity, remote.date): %s" % ps[:3])
         C.ob("R5", "differing-days-exchanged", ok, sh.loc(hdr) if hdr is not None else sh.loc(), det)
     except mir.MissingAnchor as e:
         C.anchor_missing("R5", "synchronise_history", e)
 
     # ---- R6: NodeToInsert.old_* describe the stored row
-    want = {"old_local_id": "node._local_id", "old_room_id": "node.room_id", "old_mdate": "node.mdate", "old_verifying_key": "node.verifying_key", "old_entity": "node._entity"}
+    want = {"old_local_id": N["row"] + "._local_id", "old_room_id": N["row"] + ".room_id", "old_mdate": N["row"] + ".mdate", "old_verifying_key": N["row"] + ".verifying_key", "old_entity": N["row"] + "._entity"}
     n = 0
     for bi in sorted(b.live_blocks()):
         for si, st in enumerate(b.blocks[bi]["s"]):
@@ -241,7 +256,7 @@ def run(P, C, tier):
             if rv["r"] == "aggr" and rv.get("adt") == "database::node::NodeToInsert":
                 t = b.def_term(bi, si, rv, 0)
                 f = dict(zip(t[5], t[4]))
-                stored = any(field_path(x).startswith("node.") for x in t[4])
+                stored = any(field_path(x).startswith(N["row"] + ".") for x in t[4])
                 if not stored:
                     continue   # the literal for rows that are absent locally
                 n += 1
